@@ -254,6 +254,17 @@ fn make_case(timers: &[(Action, bool)], term: Term, term_time: u32, mailbox: Mai
         ops.push(Op::Sleep(1));
     }
     let mut spawn = SpawnCfg { mailbox, strat: Strat::Default, timeout: None };
+    let abandoned_registrar = ABANDONED_REGISTRAR.with(|a| a.get()) && any_handler;
+    if abandoned_registrar {
+        // the invocation that registers the timer goes on for 5 ticks afterwards and is abandoned
+        // by a carry-on limit of 2: what it had done by then stands
+        spawn.timeout = Some((2, false));
+        for (i, (_, in_handler)) in timers.iter().enumerate() {
+            if *in_handler {
+                role.work.push((50 + i as u32, Work { sleep: 5, act_first: true, ..Work::default() }));
+            }
+        }
+    }
     let restart = RESTART_FIRST.with(|r| r.get());
     if let Some((at, recreate)) = restart {
         if recreate {
@@ -298,7 +309,8 @@ fn make_case(timers: &[(Action, bool)], term: Term, term_time: u32, mailbox: Mai
     }
     let instant = work == Work::default();
     let desc = format!(
-        "timers{}{} {:?} term={:?}@{} mailbox={} work={}s racy={}",
+        "timers{}{}{} {:?} term={:?}@{} mailbox={} work={}s racy={}",
+        if abandoned_registrar { " [the registering invocation is abandoned at t=3]" } else { "" },
         match holder {
             1 => " [held by a Caller only]",
             2 => " [held by a Sender only]",
@@ -355,6 +367,8 @@ fn with_restart_first<T>(at: u32, recreate: bool, f: impl FnOnce() -> T) -> T {
 }
 
 thread_local! {
+    /// the handler that registers the timers overruns a carry-on limit afterwards
+    static ABANDONED_REGISTRAR: std::cell::Cell<bool> = const { std::cell::Cell::new(false) };
     /// length of a scene tick in microseconds for the cases being generated
     static TICK_US: std::cell::Cell<u32> = const { std::cell::Cell::new(1000) };
 }
@@ -404,6 +418,18 @@ fn plain_cases(tier: Tier) -> Vec<Case> {
             }
         }
     }
+    // a timer registered by an invocation that is abandoned later on (carry-on limit): it has
+    // been registered, it fires like any other (period / delay 3: first due at t=4, the actor
+    // has been idle again since t=3)
+    ABANDONED_REGISTRAR.with(|a| a.set(true));
+    for kind in 0..4u8 {
+        for &mb in &[Mailbox::U, Mailbox::B(0)] {
+            for (term, tt) in [(Term::Never, 0u32), (Term::Stop, 7), (Term::Drop, 7)] {
+                v.push(make_case(&[(timer_of(kind, 1, 3), true)], term, tt, mb, Work::default(), false, 0));
+            }
+        }
+    }
+    ABANDONED_REGISTRAR.with(|a| a.set(false));
     // durations below the clock's resolution (a tick of 0.5 ms: 1 tick = 0.5 ms, 3 ticks = 1.5 ms)
     // and durations no run will see the end of (2^62 s, Duration::MAX): a short wait is not no
     // wait, a long one is not a short one
@@ -522,7 +548,7 @@ fn cases(tier: Tier) -> Vec<Case> {
     let mut v = plain_cases(tier);
     let s = crate::progscene::with_stream_variant(|| plain_cases(tier));
     let step = if tier == Tier::Thorough { 2 } else { 4 };
-    v.extend(s.into_iter().enumerate().filter(|(i, c)| i % step == 2 % step && !c.desc.contains("TimeoutFail")).map(|(_, mut c)| {
+    v.extend(s.into_iter().enumerate().filter(|(i, c)| i % step == 2 % step && !c.desc.contains("TimeoutFail") && !c.desc.contains("is abandoned at t=3")).map(|(_, mut c)| {
         c.desc = format!("[stream loop] {}", c.desc);
         c.exec.select_choice = false;
         c
@@ -546,7 +572,7 @@ fn cases(tier: Tier) -> Vec<Case> {
     // and a bounded mailbox that never fills: tick handlers run under the same limit as any other
     let step = if tier == Tier::Thorough { 2 } else { 5 };
     let amb = crate::scenes::Ambient { generous_timeout: true, roomy: true, ..Default::default() };
-    v.extend(crate::check::with_ambient(plain_cases(tier).into_iter().enumerate().filter(|(i, c)| i % step == 3 % step && !c.desc.contains("TimeoutFail")).map(|(_, c)| c).collect(), amb));
+    v.extend(crate::check::with_ambient(plain_cases(tier).into_iter().enumerate().filter(|(i, c)| i % step == 3 % step && !c.desc.contains("TimeoutFail") && !c.desc.contains("is abandoned at t=3")).map(|(_, c)| c).collect(), amb));
     v
 }
 
